@@ -279,6 +279,38 @@ def gen_cmds(rng, fr, n):
     return cmds
 
 
+# programs with a line whose breakpoint must fire a KNOWN number of times (counted by reading the program, not from the debug
+# map): (source, line, stops expected for `break <line>` followed by `continue` until the program ends)
+COUNTED = [
+    # the ELSEIF condition is evaluated for i = 2, 3, 4 (for i = 1 the IF arm runs and the ELSEIF is skipped)
+    ('FOR i% = 1 TO 4\n  IF i% = 1 THEN\n    PRINT "one"\n  ELSEIF i% = 2 THEN\n    PRINT "two"\n  ELSE\n    PRINT "more"\n  END IF\nNEXT\n', 4, 3),
+    # the statement in the ELSE arm runs for i = 3, 4
+    ('FOR i% = 1 TO 4\n  IF i% = 1 THEN\n    PRINT "one"\n  ELSEIF i% = 2 THEN\n    PRINT "two"\n  ELSE\n    PRINT "more"\n  END IF\nNEXT\n', 7, 2),
+    ('FOR i% = 1 TO 3\n  PRINT i%\nNEXT\nPRINT "end"\n', 2, 3),
+    ('x% = 0\nDO\n  x% = x% + 1\nLOOP UNTIL x% = 5\nPRINT x%\n', 3, 5),
+    ('CALL p\nCALL p\nEND\nSUB p\n  PRINT "in"\nEND SUB\n', 5, 2),
+]
+
+
+def counted_probe(src, line, want, o):
+    st = real.try_compile(src, o, True)
+    if st[0] != 'ok':
+        return ('counted-program-rejected', str(st[1])[:80])
+    mod = real.QModule.parse(st[2])
+    buf = io.StringIO()
+    stops = 0
+    with contextlib.redirect_stdout(buf):
+        m = real.QvmMachine(mod, impl=real.RecImpl())
+        d = Cmd(m, mod)
+        d.onecmd(f'break {line}')
+        for _ in range(want + 10):
+            d.onecmd('continue')
+            if m.cpu.halted and m.cpu.halt_reason.name != 'BREAKPOINT':
+                break
+            stops += 1
+    return None if stops == want else ('line-breakpoint-stop-count', f'break {line}: {stops} stops, {want} expected')
+
+
 def task(t):
     return real.big_frame(lambda: _task(t))
 
@@ -399,6 +431,11 @@ def run(chk):
             meta.append(rep)
             if len(cmds) >= 3 and out['nticks'] > 30:
                 nontriv.add((t[0], tuple(cmds)))
+    for src_, line_, want_ in COUNTED:
+        for o_ in (0, 2):
+            pr = counted_probe(src_, line_, want_, o_)
+            if pr is not None:
+                chk.finding('C12 ' + pr[0], pr[1], {'kind': 'counted', 'src': src_, 'line': line_, 'want': want_, 'O': o_})
     got = chk.model.ask(reqs) if chk.model and reqs else []
     nbad = 0
     for i, (g, e) in enumerate(zip(got, exp)):
